@@ -196,6 +196,9 @@ def make_probe(name, params, nout=1, log=None, internal_shape=None, ret_list=Fal
                 rn = fault.get("raise_nth")
                 if rn and state["n"] == rn[0]:
                     raise make_exc(rn[1])
+                ra = fault.get("raise_always")
+                if ra:
+                    raise make_exc(ra)
 
             def one(o):
                 base = t if nout == 1 else f"{t}#{o}"
